@@ -9,6 +9,7 @@ pub mod c06;
 pub mod c07;
 pub mod c11;
 pub mod c16;
+pub mod c20;
 
 pub trait Check: Sync {
     fn id(&self) -> &'static str;
@@ -25,12 +26,13 @@ pub fn get(id: &str) -> Option<Box<dyn Check>> {
         "C07" => Some(Box::new(c07::C07)),
         "C11" => Some(Box::new(c11::C11)),
         "C16" => Some(Box::new(c16::C16)),
+        "C20" => Some(Box::new(c20::C20)),
         _ => None,
     }
 }
 
 pub fn all_ids() -> Vec<&'static str> {
-    vec!["C04", "C05", "C06", "C07", "C11", "C16"]
+    vec!["C04", "C05", "C06", "C07", "C11", "C16", "C20"]
 }
 
 /// does `msg` mention `parts` in this order (each after the previous one)?
